@@ -228,9 +228,10 @@ def check_case(acc, cls, first_line: str, content: str, label: str, additional=N
         if _cmp(res.options) != _cmp(exp_only):
             vs.append(mk("C08:options-without-block", inp, _cmp(exp_only), _cmp(res.options)))
     # ---- content-not-permitted warning
-    if rest and any(x.strip() for x in rest) and not cls.has_content:
-        if sum("Has content, but none permitted" in w for w in wtexts) != 1:
-            vs.append(mk("C08:content-not-permitted-not-warned", inp, 1, wtexts))
+    # (a directive that takes no content warns about a non-empty body; the statement says nothing about that warning, so
+    # it is only counted)
+    if acc is not None and rest and any(x.strip() for x in rest) and not cls.has_content:
+        acc.classes["body-for-directive-without-content:" + ("warned" if any("none permitted" in w for w in wtexts) else "silent")] += 1
     if acc is not None:
         nontrivial = block is not None and k > 0 and any(x.strip() for x in exp_rest)
         acc.case((label, first_line, content), nontrivial,
